@@ -232,6 +232,9 @@ pub fn plan(p: u32, tier: &str) -> Vec<Run> {
             let mut mono = noise("S3D2-mono+follow", 2, true, false);
             mono.cmp = Cmp::Mono;
             add(mono, families::slots(3));
+            let mut newer = noise("S3D2-newer+follow", 2, true, false);
+            newer.cmp = Cmp::Newer;
+            add(newer, families::slots(3));
             let mut pr = noise("S3D2-prod+follow", 2, true, false);
             pr.cmp = Cmp::Prod;
             pr.conv = Conv::Parts;
@@ -375,6 +378,9 @@ pub fn plan(p: u32, tier: &str) -> Vec<Run> {
         8 | 9 => {
             add(s3(true), families::slots(3));
             add(s4(true), families::slots(4));
+            let mut l2 = late("late2x+follow", true);
+            l2.follow = true;
+            add(l2, families::late_gadget(2, true));
             if p == 8 {
                 // failures the engine declares itself (a validated Ephemeral changing its output);
                 // not for C09: a volatile job's output differs between the resume and the uninterrupted run
@@ -592,6 +598,14 @@ pub fn plan(p: u32, tier: &str) -> Vec<Run> {
             v4.faults = vec![false, true];
             add(v4, families::slots_volatile(4).into_iter().filter(|u| u.label.contains("EO") || u.label.contains("EE")).take(12).collect());
             add(late("late2x-volatile", true), families::late_gadget_volatile(2, true));
+            // a validated Ephemeral re-executed with the same content and a newer timestamp, under a
+            // comparison that is not symmetric: the question must be asked as (recorded, reported)
+            let mut mono = noise("S3D2-mono+follow", 2, true, false);
+            mono.cmp = Cmp::Mono;
+            add(mono, families::slots(3));
+            let mut newer = noise("S3D2-volatile-newer+follow", 2, true, false);
+            newer.cmp = Cmp::Newer;
+            add(newer, families::slots_volatile(3));
             if thorough {
                 add(s("S3D3-volatile", 3, m), families::slots_volatile(3));
                 let mut v4 = s("S4D2-volatile-k2-all", 2, m);
@@ -952,6 +966,10 @@ pub fn cmd_run(args: &[String]) -> i32 {
             "mono" => {
                 spec.noise = true;
                 spec.cmp = Cmp::Mono;
+            }
+            "newer" => {
+                spec.noise = true;
+                spec.cmp = Cmp::Newer;
             }
             "twin" => spec.twin = true,
             "misuse" => spec.misuse = true,
